@@ -3,10 +3,17 @@ import TinsModel.Dns.Compose
 import TinsModel.Dns.Update
 import TinsModel.Dns.Oracle
 import TinsModel.Dns.SoaLemmas
+import TinsModel.Dns.EditAny
+import TinsModel.Dns.GetSound
+import TinsModel.Dns.CompressMsg
 /-
   Property C10 — DNS messages stay coherent under parsing, editing and name compression.
   Only the property theorems live here; the model is `TinsModel/Dns/Model.lean`, the specification
-  `TinsModel/Dns/Spec.lean`, helper lemmas `TinsModel/Dns/{Lemmas,Safety,Names,Records,Refine,Compose}.lean`.
+  `TinsModel/Dns/Spec.lean`, helper lemmas `TinsModel/Dns/{Lemmas,Safety,Names,Records,Refine,Compose}.lean`;
+  for stored messages with name compression: `Layout` (layout relation, `wfMsg`), `LayoutSound`, `LayoutShift`
+  (transport), `UpdateLayout` (`update_records` on a layout), `Via` (pointer-target invariant, `compose_name`
+  complete), `GetLayout` / `GetSound` (getters, constructor), `WireLayout`, `MsgLayout`, `Insert`, `InsertSec`,
+  `EditBuf`, `EditWf`, `EditAny` (one insertion), `CompressName`, `CompressMsg` (the reference compressor).
 -/
 namespace Tins.Props.C10
 open Tins Tins.Dns
@@ -307,7 +314,8 @@ theorem insertion_is_shift {m m' : Msg} {sec : Section} {r : NewRec} (hm : Reach
       ∀ x, R x → insPoint m sec ≤ x :=
   addRecord_shifted (reachable_inv hm) h hdisj
 
-/-- **pointers_preserved, proved part**: after such an insertion every name that resolved at offset `p` (RFC 1035
+/-- **pointers_preserved for ANY stored bytes** (the full-strength theorem for well-formed messages is
+    `pointers_preserved` in §6): after such an insertion every name that resolved at offset `p` (RFC 1035
     §4.1.4) resolves to the same labels with the same number of jumps at the offset the splice moved `p` to —
     provided every pointer on its resolution path whose target moves is one of the re-targeted ones (`R`), untouched
     pointers designate names before the insertion point, and no label straddles the insertion point
@@ -339,7 +347,248 @@ example : (parse ptrExample >>= fun m0 =>
          [⟨[0x61, 0x62, 0x2e, 0x63], 2, 1, 9, 0, .str [0x6e, 0x73, 0x2e, 0x61, 0x62, 0x2e, 0x63]⟩], [],
          (1, 1, 1, 0)⟩ := by decide +kernel
 
-/-! ## 6. Compressed initial messages: full statement (not proved), what is proved, what ties it to the code -/
+/-! ## 6. Stored messages WITH name compression: pointers preserved, sections refine, re-parse — for ALL inputs
+
+  `wfMsg` (`TinsModel/Dns/Layout.lean`) is the decidable well-formedness predicate of a stored message:
+    (L) the four sections are laid out back to back between the stored offsets, with as many records as the header
+        counts say, record data shaped as its type demands (A 4 octets, AAAA 16, one name inside NS/CNAME/PTR/DNAME/MX
+        data, exactly two names + 20 octets of SOA data), nothing behind the last additional record, stored question
+        types / classes inside the enums (KF-C10-1), a 4-octet id/flags field;
+    (P1) every pointer that ends a stored name — question names, owner names, the names in NS/CNAME/PTR/DNAME/MX/SOA
+        data — designates a label boundary of a stored name (an offset from which the label walk reaches the end of
+        one of these name sites);
+    (P2) no such pointer designates an offset in a LATER section than its own (pointers that point backwards, RFC
+        1035 §4.1.4, satisfy it; libtins also copes with forward pointers inside a section);
+    (N) every stored name resolves within `compose_name`'s caps (at most 31 jumps, 255 octets).
+  Outside (P1) / (P2) libtins silently changes names on a message it accepts: KF-C10-12, KF-C10-13 below. -/
+
+/-- ANY insertion through the public API: whatever question (type / class inside the enums) or record -/
+inductive Insertion
+  | query (q : Query)
+  | record (sec : Section) (r : NewRec)
+
+/-- the octets the insertion writes -/
+def Insertion.bytes : Insertion → Out Bytes
+  | .query q => enumLoad q.type q.cls >>= fun _ => .ok (encodeDomainName q.name ++ be16 q.type ++ be16 q.cls)
+  | .record _ r => recordBytes r
+
+def Insertion.apply (m : Msg) : Insertion → Out Msg
+  | .query q => addQuery m q
+  | .record sec r => addRecord m sec r
+
+/-- where they are spliced in: the end of the section the record / question goes to -/
+def Insertion.point (m : Msg) : Insertion → Nat
+  | .query _ => m.ai
+  | .record sec _ => insPoint m sec
+
+/-- what "every name of every record reads the same after the insertion" means for the stored message `m` with
+    name sites `sites`, when `k` octets were spliced in at `t` and the records became `recs'` -/
+def NamesPreserved (m : Msg) (sites : List Site) (t k : Nat) (recs' : Bytes) : Prop :=
+  ∀ σ ∈ sites,
+    (∀ n j, Resolves m.recs σ.s n j → Resolves recs' (shift t k σ.s) n j) ∧
+    composeName recs' composeFuel (shift t k σ.s) [] 0 none =
+      (composeName m.recs composeFuel σ.s [] 0 none >>= fun r => .ok (r.1, shift t k σ.s + (r.2 - σ.s)))
+
+/-- **pointers_preserved** (full strength on well-formed messages): ANY insertion of `k` octets at record offset `t`
+    by `add_query` / `add_answer` / `add_authority` / `add_additional` into a well-formed stored message succeeds (as
+    long as the message stays below 16 KiB: offsets have 14 bits), re-targets exactly the pointers `Rt` (those that
+    end a stored name at or after `t` and designate an offset `≥ t + 12`; `Shifted`: targets `< t + 12` unchanged, the
+    others `+ k`), and afterwards EVERY stored name — of every question and every record, owner and data — resolves
+    (RFC 1035) to the same labels with the same number of jumps and is read by `compose_name` as the same text. -/
+theorem pointers_preserved {m : Msg} (hwf : wfMsg m = true) (ins : Insertion) {bytes : Bytes}
+    (hb : ins.bytes = .ok bytes) (hsz : m.recs.length + 12 + bytes.length ≤ 16384) :
+    ∃ L m', layoutB m = some L ∧ ins.apply m = .ok m' ∧ m'.recs.length = m.recs.length + bytes.length ∧
+      Shifted m.recs m'.recs (ins.point m) bytes.length (Rt L (ins.point m) m.recs) ∧
+      NamesPreserved m L.sites (ins.point m) bytes.length m'.recs := by
+  obtain ⟨L, hL, hw⟩ := wfMsg_sound' hwf
+  have key : ∀ m' : Msg, Ins m L (ins.point m) bytes.length m'.recs →
+      NamesPreserved m L.sites (ins.point m) bytes.length m'.recs := by
+    intro m' I σ hσ
+    refine ⟨fun n j hr => I.resolves_sh hσ hr, ?_⟩
+    rw [I.compose_sh hσ, composeName_at_site (I.ok.site σ hσ) (hw.res σ hσ)]
+    rfl
+  cases ins with
+  | query q =>
+    simp only [Insertion.bytes] at hb
+    unfold enumLoad at hb
+    by_cases he : q.type < 64 ∧ q.cls < 256
+    · rw [if_pos he] at hb
+      simp only [Out.ok_bind] at hb
+      cases hb
+      obtain ⟨m', h1, I, hlen⟩ := addQuery_ins hw he hsz
+      exact ⟨L, m', hL, h1, hlen, I.sh, key m' I⟩
+    · rw [if_neg he] at hb; cases hb
+  | record sec r =>
+    obtain ⟨m', h1, I, hlen⟩ := addRecord_ins hw sec hb hsz
+    exact ⟨L, m', hL, h1, hlen, I.sh, key m' I⟩
+
+/-- non-vacuity: `ptrExample` (question `ab.c`, authority `NS` whose owner and data end in pointers to the question
+    name) is well-formed; so is a fresh message -/
+example : (parse ptrExample >>= fun m => .ok (wfMsg m)) = .ok true := by decide +kernel
+example : wfMsg {} = true := by decide +kernel
+
+/-- FULL STATEMENT without the pointer conditions (P1), (P2): for every stored message that is laid out and whose
+    names resolve.  It does not hold: `names_preserved_all_fails`. -/
+def names_preserved_all : Prop :=
+  ∀ (m : Msg) (L : Layout), layoutB m = some L → layoutOkB m L = true → ∀ (ins : Insertion) (bytes : Bytes) (m' : Msg),
+    ins.bytes = .ok bytes → m.recs.length + 12 + bytes.length ≤ 16384 → ins.apply m = .ok m' →
+    ∀ σ ∈ L.sites, composeName m'.recs composeFuel (shift (ins.point m) bytes.length σ.s) [] 0 none =
+      (composeName m.recs composeFuel σ.s [] 0 none >>= fun r => .ok (r.1, shift (ins.point m) bytes.length σ.s + (r.2 - σ.s)))
+
+/-- KF-C10-12 (outside P2): the question name is a pointer FORWARD to the owner name `ab.c` of the authority record;
+    `add_answer` splices the new record in between and does not look at the question, so the question now reads `x`
+    (the owner of the inserted record).  libtins accepts the message and returns the wrong name silently. -/
+def fwdWitness : Bytes :=
+  [0, 7, 0x81, 0x80, 0, 1, 0, 0, 0, 1, 0, 0,
+   0xc0, 18, 0, 1, 0, 1,                                                    -- (ptr to offset 18) A IN
+   2, 0x61, 0x62, 1, 0x63, 0, 0, 2, 0, 1, 0, 0, 0, 9, 0, 2, 0xc0, 18]        -- ab.c NS IN 9 (ptr to offset 18)
+
+def fwdInsert : NewRec := ⟨[0x78], 1, 1, 5, 0, [], some [1, 2, 3, 4]⟩          -- x A IN 5 1.2.3.4
+
+def fwdMsg : Msg := match parse fwdWitness with | .ok m => m | _ => {}
+def fwdLayout : Layout := (layoutB fwdMsg).getD ⟨[], [], [], []⟩
+def fwdMsg' : Msg := match addRecord fwdMsg .answer fwdInsert with | .ok m => m | _ => {}
+
+/-- refutation witness (replayed on the real code on every run, corpus/C10/kf12-forward-pointer.ops) -/
+theorem names_preserved_all_fails : ¬ names_preserved_all := by
+  intro h
+  have := h fwdMsg fwdLayout (by decide +kernel) (by decide +kernel) (.record .answer fwdInsert)
+    [1, 0x78, 0, 0, 1, 0, 1, 0, 0, 0, 5, 0, 4, 1, 2, 3, 4] fwdMsg' (by decide +kernel) (by decide +kernel)
+    (by decide +kernel) ⟨0, 0, 2⟩ (by decide +kernel)
+  revert this
+  decide +kernel
+
+/-- what the getters show: the question `ab.c` has become `x`; the message is laid out, its names resolve, only (P2)
+    fails -/
+example : (parse fwdWitness >>= queries) = .ok [⟨[0x61, 0x62, 0x2e, 0x63], 1, 1⟩] := by decide +kernel
+example : (parse fwdWitness >>= fun m => addRecord m .answer fwdInsert >>= queries) = .ok [⟨[0x78], 1, 1⟩] := by
+  decide +kernel
+example : (parse fwdWitness >>= fun m => .ok (wfMsg m)) = .ok false := by decide +kernel
+
+/-- KF-C10-13 (outside P1): the data of the SRV record (opaque to libtins: `update_records` only knows the names in
+    NS/CNAME/PTR/DNAME/MX/SOA data) holds the compressed name `h.<ptr to ab.c>`, and the owner of the second answer is a
+    pointer INTO that data.  `add_query` moves everything; the owner pointer is re-targeted, the pointer inside the SRV data
+    is not, so the second answer's owner `h.ab.c` becomes `h.q` (the inserted question).  Accepted, silently wrong. -/
+def escWitness : Bytes :=
+  [0, 7, 0x81, 0x80, 0, 0, 0, 2, 0, 0, 0, 0,
+   2, 0x61, 0x62, 1, 0x63, 0, 0, 33, 0, 1, 0, 0, 0, 9, 0, 10, 0, 1, 0, 2, 0, 80, 1, 0x68, 0xc0, 12,   -- ab.c SRV IN 9: 1 2 80 h.(ptr 12)
+   0xc0, 34, 0, 1, 0, 1, 0, 0, 0, 9, 0, 4, 1, 2, 3, 4]                                                  -- (ptr 34 = `h` in the SRV data) A IN 9 1.2.3.4
+
+example : (parse escWitness >>= answers) = .ok
+    [⟨[0x61, 0x62, 0x2e, 0x63], 33, 1, 9, 0, .str [0, 1, 0, 2, 0, 80, 1, 0x68, 0xc0, 12]⟩,
+     ⟨[0x68, 0x2e, 0x61, 0x62, 0x2e, 0x63], 1, 1, 9, 0, .str [0x31, 0x2e, 0x32, 0x2e, 0x33, 0x2e, 0x34]⟩] := by decide +kernel
+example : (parse escWitness >>= fun m => addQuery m ⟨[0x71], 1, 1⟩ >>= answers) = .ok
+    [⟨[0x61, 0x62, 0x2e, 0x63], 33, 1, 9, 0, .str [0, 1, 0, 2, 0, 80, 1, 0x68, 0xc0, 12]⟩,
+     ⟨[0x68, 0x2e, 0x71], 1, 1, 9, 0, .str [0x31, 0x2e, 0x32, 0x2e, 0x33, 0x2e, 0x34]⟩] := by decide +kernel
+example : (parse escWitness >>= fun m => .ok (wfMsg m)) = .ok false := by decide +kernel
+
+/-! ### the four sections under any history of legal insertions, from ANY well-formed stored message -/
+
+/-- what the getters and the header counts show for a laid-out message -/
+def obsOf (m : Msg) (L : Layout) : Observed :=
+  ⟨(views m L).qs, (views m L).an, (views m L).au, (views m L).ad, (m.q, m.an, m.au, m.ad)⟩
+
+theorem observe_wf {m : Msg} {L : Layout} (h : WFL m L) : observe m = .ok (obsOf m L) := by
+  unfold observe
+  rw [queries_layout h.lay h.res, answers_layout h.lay h.res, authority_layout h.lay h.res,
+    additional_layout h.lay h.res]
+  rfl
+
+/-- **counts_agree**: on a well-formed message the header counts are the lengths of what the getters return -/
+theorem counts_agree_wf {m : Msg} {L : Layout} (h : WFL m L) :
+    (obsOf m L).counts = ((obsOf m L).queries.length, (obsOf m L).answers.length, (obsOf m L).authority.length,
+      (obsOf m L).additional.length) := by
+  simp only [obsOf, views, List.length_map, h.lay.cq, h.lay.can, h.lay.cau, h.lay.cad]
+
+/-- the same insertion on what is observed -/
+def obsEdit (O : Observed) : Edit → Observed
+  | .query q => { O with queries := O.queries ++ [q.view],
+                         counts := (O.counts.1 + 1, O.counts.2.1, O.counts.2.2.1, O.counts.2.2.2) }
+  | .record .answer r _ => { O with answers := O.answers ++ [r.view],
+                                    counts := (O.counts.1, O.counts.2.1 + 1, O.counts.2.2.1, O.counts.2.2.2) }
+  | .record .authority r _ => { O with authority := O.authority ++ [r.view],
+                                       counts := (O.counts.1, O.counts.2.1, O.counts.2.2.1 + 1, O.counts.2.2.2) }
+  | .record .additional r _ => { O with additional := O.additional ++ [r.view],
+                                        counts := (O.counts.1, O.counts.2.1, O.counts.2.2.1, O.counts.2.2.2 + 1) }
+
+/-- octets the insertion adds -/
+def editSize : Edit → Nat
+  | .query q => q.wire.length
+  | .record _ r _ => r.wire.length
+
+def countSum (m : Msg) : Nat := m.q + m.an + m.au + m.ad
+
+/-- one legal insertion into a well-formed stored message: it succeeds, the result is well-formed, and the getters
+    show the old sections plus the inserted record -/
+theorem applyEdit_wf {m : Msg} {L : Layout} (h : WFL m L) {e : Edit} (he : e.legal = true)
+    (hc : countSum m + 1 < 65536) (hsz : m.recs.length + 12 + editSize e ≤ 16384) :
+    ∃ m' L', applyEdit m e = .ok m' ∧ WFL m' L' ∧ obsOf m' L' = obsEdit (obsOf m L) e ∧
+      m'.recs.length = m.recs.length + editSize e ∧ countSum m' = countSum m + 1 := by
+  unfold countSum at hc ⊢
+  cases e with
+  | query q =>
+    simp only [Edit.legal, Bool.and_eq_true] at he
+    obtain ⟨m', h1, h2, ⟨c1, c2, c3, c4⟩, h4, v1, v2, v3, v4⟩ := addQuery_wf h he.1 he.2 (by omega) hsz
+    refine ⟨m', _, h1, h2, ?_, h4, by omega⟩
+    simp only [obsOf, obsEdit, v1, v2, v3, v4, c1, c2, c3, c4]
+  | record sec r txt =>
+    simp only [Edit.legal] at he
+    cases sec with
+    | answer =>
+      obtain ⟨m', h1, h2, ⟨c1, c2, c3, c4⟩, h4, v1, v2, v3, v4⟩ := addAnswer_wf h he txt (by omega) hsz
+      refine ⟨m', _, h1, h2, ?_, h4, by omega⟩
+      simp only [obsOf, obsEdit, v1, v2, v3, v4, c1, c2, c3, c4]
+    | authority =>
+      obtain ⟨m', h1, h2, ⟨c1, c2, c3, c4⟩, h4, v1, v2, v3, v4⟩ := addAuthority_wf h he txt (by omega) hsz
+      refine ⟨m', _, h1, h2, ?_, h4, by omega⟩
+      simp only [obsOf, obsEdit, v1, v2, v3, v4, c1, c2, c3, c4]
+    | additional =>
+      obtain ⟨m', h1, h2, ⟨c1, c2, c3, c4⟩, h4, v1, v2, v3, v4⟩ := addAdditional_wf h he txt (by omega)
+      refine ⟨m', _, h1, h2, ?_, h4, by omega⟩
+      simp only [obsOf, obsEdit, v1, v2, v3, v4, c1, c2, c3, c4]
+
+/-- any history of legal insertions from a well-formed stored message -/
+theorem runEdits_wf : ∀ (es : List Edit) (m : Msg) (L : Layout), WFL m L → (∀ e ∈ es, e.legal = true) →
+    countSum m + es.length < 65536 → m.recs.length + 12 + (es.map editSize).sum ≤ 16384 →
+    ∃ m' L', runEdits m es = .ok m' ∧ WFL m' L' ∧ obsOf m' L' = es.foldl obsEdit (obsOf m L) ∧
+      countSum m' = countSum m + es.length
+  | [], m, L, h, _, _, _ => ⟨m, L, rfl, h, rfl, rfl⟩
+  | e :: es, m, L, h, he, hc, hsz => by
+    simp only [List.length_cons] at hc
+    simp only [List.map_cons, List.sum_cons] at hsz
+    obtain ⟨m1, L1, h1, w1, o1, l1, c1⟩ := applyEdit_wf h (he e List.mem_cons_self) (by omega) (by omega)
+    obtain ⟨m2, L2, h2, w2, o2, c2⟩ := runEdits_wf es m1 L1 w1 (fun x hx => he x (List.mem_cons_of_mem _ hx))
+      (by omega) (by omega)
+    refine ⟨m2, L2, ?_, w2, ?_, by simp only [List.length_cons]; omega⟩
+    · unfold runEdits; rw [h1]; exact h2
+    · rw [o2, o1]; rfl
+
+/-- **sections_refine + counts_agree + reparse_sections for stored messages with name compression** — for EVERY
+    well-formed stored message `m0` (in particular every accepted wire message that `wfMsg` accepts, compressed in
+    whatever way) and EVERY history of legal insertions into any sections in any order (while the header counts fit 16
+    bits and the message stays below 16 KiB): the four getters show exactly what they showed for `m0` plus the inserted
+    records, in order, with fully expanded names; the header counts agree; and serializing the object and parsing the
+    bytes gives the same object back, hence the same four sections. -/
+theorem sections_refine_wf {m0 : Msg} (hwf : wfMsg m0 = true) (es : List Edit) (he : ∀ e ∈ es, e.legal = true)
+    (hc : countSum m0 + es.length < 65536) (hsz : m0.recs.length + 12 + (es.map editSize).sum ≤ 16384) :
+    ∃ O0 m, observe m0 = .ok O0 ∧ runEdits m0 es = .ok m ∧ observe m = .ok (es.foldl obsEdit O0) ∧
+      parse (serialize m) = .ok m ∧
+      (es.foldl obsEdit O0).counts = ((es.foldl obsEdit O0).queries.length, (es.foldl obsEdit O0).answers.length,
+        (es.foldl obsEdit O0).authority.length, (es.foldl obsEdit O0).additional.length) := by
+  obtain ⟨L0, w0⟩ := wfMsg_sound hwf
+  obtain ⟨m, L, h1, w, o, c⟩ := runEdits_wf es m0 L0 w0 he hc hsz
+  unfold countSum at hc c
+  refine ⟨obsOf m0 L0, m, observe_wf w0, h1, by rw [← o]; exact observe_wf w, ?_, by rw [← o]; exact counts_agree_wf w⟩
+  exact parse_of_layout w.lay w.hdr (by omega) (by omega) (by omega) (by omega)
+
+/-- **reparse_sections_compressed**: the four sections of `parse (serialize m)` are those of `m` -/
+theorem reparse_sections_compressed {m0 : Msg} (hwf : wfMsg m0 = true) (es : List Edit) (he : ∀ e ∈ es, e.legal = true)
+    (hc : countSum m0 + es.length < 65536) (hsz : m0.recs.length + 12 + (es.map editSize).sum ≤ 16384) :
+    ∃ m, runEdits m0 es = .ok m ∧ (parse (serialize m) >>= observe) = observe m := by
+  obtain ⟨_, m, _, h1, _, h3, _⟩ := sections_refine_wf hwf es he hc hsz
+  exact ⟨m, h1, by rw [h3]; rfl⟩
+
+/-! ### … and from the compressed reference encoding of abstract sections -/
 
 /-- the compressed reference encoding resolves every name with at most 31 jumps when no name has more than 31
     labels (a pointer always designates a suffix that starts with a literal label) -/
@@ -352,21 +601,104 @@ def shortNames (S : Sections) : Bool :=
     | .soa a b _ => a.length ≤ 31 && b.length ≤ 31
     | _ => true)
 
-/-- FULL STATEMENT for compressed initial messages (`sections_refine` + `counts_agree` + `pointers_preserved` at the
-    level of the getters): parse the compressed reference encoding of any legal content, apply any legal edit history,
-    observe exactly the edited content.  (14-bit pointers: the message has to stay below 16 KiB.)
-    NOT PROVED. Proved instead: the same statement for the uncompressed encoder (`sections_refine_parsed`), memory
-    safety on every input (`getters_noFault_partial`, `edit_noFault_partial`), `insertion_is_shift` and
-    `pointers_preserved_partial` for any stored bytes.  Missing: the invariant that in `refCompress` output every
-    pointer on a resolution path is the terminal pointer of a name site that `update_records` visits (so that
-    `ResolvesVia` holds for every name site), and the getter walk over compressed sites.  Checked on every run by the
-    correspondence + oracle on compressed reference encodings (Python encoder) and on the instances below. -/
+theorem obsEdit_expected (S : Sections) (e : Edit) : obsEdit (expected S) e = expected (specEdit S e) := by
+  cases e with
+  | query q => simp [obsEdit, expected, specEdit, Sections.addQ]
+  | record sec r txt => cases sec <;> simp [obsEdit, expected, specEdit, Sections.add]
+
+theorem foldl_obsEdit_expected : ∀ (es : List Edit) (S : Sections),
+    es.foldl obsEdit (expected S) = expected (es.foldl specEdit S)
+  | [], _ => rfl
+  | e :: es, S => by rw [List.foldl_cons, List.foldl_cons, obsEdit_expected, foldl_obsEdit_expected es]
+
+/-- FULL STATEMENT for the Lean reference compressor `refCompress` (suffix table, RFC 1035 §4.1.4): parse the
+    compressed reference encoding of any legal content, apply any legal edit history, observe exactly the edited
+    content. -/
 def sections_refine_compressed : Prop :=
   ∀ (hdr : Bytes) (S0 : Sections) (es : List Edit), hdr.length = 4 → S0.Legal → shortNames S0 = true →
     (∀ e ∈ es, e.legal = true) → total S0 + es.length < 65536 →
     (refEncode hdr (es.foldl specEdit S0)).length < 16384 →
     ∃ m0 m, parse (refCompress hdr S0) = .ok m0 ∧ runEdits m0 es = .ok m ∧
       observe m = .ok (expected (es.foldl specEdit S0))
+
+/-- the same reduction for ANY compressor: if the initial message is accepted, accepted by `wfMsg` and read back as
+    `S0`, every legal edit history is observed as the edited content (everything about the edits, the pointer rewriting
+    and the re-parse is `sections_refine_wf`) -/
+theorem sections_refine_of_wf (S0 : Sections) (es : List Edit) {m0 : Msg} (hwf : wfMsg m0 = true)
+    (hobs : observe m0 = .ok (expected S0)) (he : ∀ e ∈ es, e.legal = true) (hc : countSum m0 + es.length < 65536)
+    (hsz : m0.recs.length + 12 + (es.map editSize).sum ≤ 16384) :
+    ∃ m, runEdits m0 es = .ok m ∧ observe m = .ok (expected (es.foldl specEdit S0)) ∧ parse (serialize m) = .ok m := by
+  obtain ⟨O0, m, h0, h1, h2, h3, _⟩ := sections_refine_wf hwf es he hc hsz
+  rw [hobs] at h0
+  cases h0
+  exact ⟨m, h1, by rw [← foldl_obsEdit_expected]; exact h2, h3⟩
+
+theorem short_of_shortNames {S : Sections} (h : shortNames S = true) : S.Short := by
+  simp only [shortNames, Bool.and_eq_true, List.all_eq_true, decide_eq_true_eq, List.mem_append] at h
+  have hr : ∀ r : SRec, (r ∈ S.an ∨ r ∈ S.au) ∨ r ∈ S.ad → r.short = true := by
+    intro r hm
+    have := h.2 r hm
+    simp only [SRec.short, Bool.and_eq_true, decide_eq_true_eq]
+    refine ⟨this.1, ?_⟩
+    have h2 := this.2
+    cases hd : r.data with
+    | a _ => rfl
+    | aaaa _ => rfl
+    | raw _ => rfl
+    | name n => rw [hd] at h2; simpa [SData.short] using h2
+    | mx _ n => rw [hd] at h2; simpa [SData.short] using h2
+    | soa m rn _ => rw [hd] at h2; simpa [SData.short] using h2
+  exact ⟨h.1, fun r hm => hr r (Or.inl (Or.inl hm)), fun r hm => hr r (Or.inl (Or.inr hm)), fun r hm => hr r (Or.inr hm)⟩
+
+theorem wireSections_specEdit (S : Sections) (e : Edit) :
+    (wireSections (specEdit S e)).length = (wireSections S).length + editSize e := by
+  cases e with
+  | query q =>
+    simp only [specEdit, Sections.addQ, wireSections, wireQs_append, wireQs_cons, editSize, List.length_append]
+    simp [wireQs]; omega
+  | record sec r txt =>
+    cases sec <;>
+      simp only [specEdit, Sections.add, wireSections, wireRecs_append, wireRecs_cons, editSize, List.length_append] <;>
+      (simp [wireRecs]; omega)
+
+theorem wireSections_foldl : ∀ (es : List Edit) (S : Sections),
+    (wireSections (es.foldl specEdit S)).length = (wireSections S).length + (es.map editSize).sum
+  | [], _ => by simp
+  | e :: es, S => by
+    rw [List.foldl_cons, wireSections_foldl es, wireSections_specEdit, List.map_cons, List.sum_cons]; omega
+
+/-- **sections_refine_compressed holds**: for EVERY legal content (names of at most 31 labels), the compressed
+    reference encoding is accepted and well-formed (`refCompress_wf`: the suffix-table invariant of the compressor),
+    and every legal edit history on it is observed as the edited content. -/
+theorem sections_refine_compressed_holds : sections_refine_compressed := by
+  intro hdr S0 es hh hl hsn he hc hsz
+  obtain ⟨m0, L0, hp, hw, v1, v2, v3, v4, ⟨c1, c2, c3, c4⟩, hlen⟩ :=
+    refCompress_wf hh hl (small_of_total (by omega)) (short_of_shortNames hsn)
+  have hcnt : countSum m0 = total S0 := by unfold countSum total; omega
+  have hsize : m0.recs.length + 12 + (es.map editSize).sum ≤ 16384 := by
+    have h1 := wireSections_foldl es S0
+    simp only [refEncode, List.length_append, be16_length, hh] at hsz
+    omega
+  obtain ⟨m, L, h1, w, o, _⟩ := runEdits_wf es m0 L0 hw he (by omega) hsize
+  refine ⟨m0, m, hp, h1, ?_⟩
+  have hobs : obsOf m0 L0 = expected S0 := by
+    simp only [obsOf, expected, v1, v2, v3, v4, c1, c2, c3, c4]
+  rw [observe_wf w, o, hobs, foldl_obsEdit_expected]
+
+/-- … and re-parsing the serialization of the edited object gives the same object -/
+theorem reparse_refCompress {hdr : Bytes} (hh : hdr.length = 4) {S0 : Sections} (hl : S0.Legal) (hsn : shortNames S0 = true)
+    (es : List Edit) (he : ∀ e ∈ es, e.legal = true) (hc : total S0 + es.length < 65536)
+    (hsz : (refEncode hdr (es.foldl specEdit S0)).length < 16384) :
+    ∃ m0 m, parse (refCompress hdr S0) = .ok m0 ∧ runEdits m0 es = .ok m ∧ parse (serialize m) = .ok m := by
+  obtain ⟨m0, L0, hp, hw, _, _, _, _, ⟨c1, c2, c3, c4⟩, hlen⟩ :=
+    refCompress_wf hh hl (small_of_total (by omega)) (short_of_shortNames hsn)
+  have hsize : m0.recs.length + 12 + (es.map editSize).sum ≤ 16384 := by
+    have h1 := wireSections_foldl es S0
+    simp only [refEncode, List.length_append, be16_length, hh] at hsz
+    omega
+  obtain ⟨m, L, h1, w, _, c⟩ := runEdits_wf es m0 L0 hw he (by unfold countSum total at *; omega) hsize
+  unfold countSum total at *
+  exact ⟨m0, m, hp, h1, parse_of_layout w.lay w.hdr (by omega) (by omega) (by omega) (by omega)⟩
 
 /-- an instance (evaluated by the kernel): question + compressed NS/SOA authority + MX additional, then an answer, a
     question and an authority record are inserted -/
@@ -384,8 +716,63 @@ def exEdits : List Edit :=
 
 example : (refCompress [0, 7, 0x81, 0x80] exS0).length < (refEncode [0, 7, 0x81, 0x80] exS0).length := by decide +kernel
 
+/-- the instance is well-formed and read back (what `refCompress_wf` proves for every content) … -/
+example : (parse (refCompress [0, 7, 0x81, 0x80] exS0) >>= fun m0 => .ok (wfMsg m0, observe m0 == .ok (expected exS0))) =
+    .ok (true, true) := by decide +kernel
+
+/-- … and its conclusion, evaluated -/
 example : (parse (refCompress [0, 7, 0x81, 0x80] exS0) >>= fun m0 => runEdits m0 exEdits >>= observe) =
     .ok (expected (exEdits.foldl specEdit exS0)) := by decide +kernel
+
+/-! ### pointer loops and pointers outside the message, at the level of the getters -/
+
+/-- **loops_rejected / oob_pointer_rejected for every getter**: on a laid-out message, a stored name without an RFC
+    1035 resolution (a pointer loop, a pointer into the header or past the end, a label past the end, a reserved label
+    type) makes the getter of its section throw — it never returns (so never a wrong name) and never faults. -/
+theorem getters_reject_unresolvable {m : Msg} {L : Layout} (hlay : MsgAt m L) {σ : Site}
+    (h : ¬ ∃ n j, Resolves m.recs σ.s n j) :
+    (σ ∈ L.qs → ∃ x, queries m = .throw x) ∧ (σ ∈ recSites L.an → ∃ x, answers m = .throw x) ∧
+    (σ ∈ recSites L.au → ∃ x, authority m = .throw x) ∧ (σ ∈ recSites L.ad → ∃ x, additional m = .throw x) := by
+  obtain ⟨x, hx⟩ := composeName_rejects m.recs σ.s h
+  have hno : (composeName m.recs composeFuel σ.s [] 0 none).isOk ≠ true := by rw [hx]; intro hc; cases hc
+  have hinv : Inv m := hlay.order
+  refine ⟨fun hσ => ?_, fun hσ => ?_, fun hσ => ?_, fun hσ => ?_⟩
+  · cases hq : queries m with
+    | ok r => exact (hno (queries_ok_names hlay hq σ hσ)).elim
+    | throw e => exact ⟨e, rfl⟩
+    | fault s => have := queries_no_fault hlay; rw [hq] at this; cases this
+  · cases hq : answers m with
+    | ok r => exact (hno (answers_ok_names hlay hq σ hσ)).elim
+    | throw e => exact ⟨e, rfl⟩
+    | fault s => have := answers_sat hinv; rw [hq] at this; exact this.elim
+  · cases hq : authority m with
+    | ok r => exact (hno (authority_ok_names hlay hq σ hσ)).elim
+    | throw e => exact ⟨e, rfl⟩
+    | fault s => have := authority_sat hinv; rw [hq] at this; exact this.elim
+  · cases hq : additional m with
+    | ok r => exact (hno (additional_ok_names hlay hq σ hσ)).elim
+    | throw e => exact ⟨e, rfl⟩
+    | fault s => have := additional_sat hinv; rw [hq] at this; exact this.elim
+
+/-- **never a wrong name**: when a record getter returns on a laid-out message it read, at every name site of its
+    section, an RFC 1035 resolution of that site with at most 31 jumps; and what it returns is the view of the layout -/
+theorem getters_names_sound {m : Msg} {L : Layout} (hlay : MsgAt m L) {rs : List Resource} (h : answers m = .ok rs) :
+    ∀ σ ∈ recSites L.an, ∃ n j, Resolves m.recs σ.s n j ∧ j ≤ 31 ∧ nameAt m.recs σ.s = appendName [] n := by
+  intro σ hσ
+  have hok := answers_ok_names hlay h σ hσ
+  have hn := (hlay.an.site_mem hσ).2.2
+  have hc := composeName_at_site hn hok
+  obtain ⟨n, j, hr, hj, hrn, _⟩ := composeName_site hn hc
+  exact ⟨n, j, hr, hj, (Prod.mk.inj hrn).1⟩
+
+/-- non-vacuity: the authority record's owner is a pointer to itself; `authority()` throws, the other getters return -/
+def loopExample : Bytes :=
+  [0, 7, 0x81, 0x80, 0, 1, 0, 0, 0, 1, 0, 0,
+   2, 0x61, 0x62, 1, 0x63, 0, 0, 1, 0, 1,
+   0xc0, 22, 0, 1, 0, 1, 0, 0, 0, 9, 0, 4, 1, 2, 3, 4]
+
+example : (parse loopExample >>= fun m => .ok ((layoutB m).isSome, authority m, (answers m).isOk, (queries m).isOk)) =
+    .ok (true, .throw .pointerLoops, true, true) := by decide +kernel
 
 /-! ## 7. The run-time oracle judges the calls the theorems are about -/
 
